@@ -1200,6 +1200,10 @@ fn noop_fault_cases(thorough: bool) -> Vec<(String, Vec<Call>)> {
                     probes.push(cap(Cp::CutPoints, 0, Params { stride: Some(stride), limit: Some(33), ..Default::default() }));
                     probes.push(cap(Cp::CompactionStatus, 0, Params { stride: Some(stride), ..Default::default() }));
                     probes.extend(noop_probes(0, 0, &[Some(stride)], false));
+                    if !cname.contains("cursor") {
+                        // no provider cursor frame in these threads: rotating has nothing to rotate
+                        probes.push(cap(Cp::CursorRotate, 0, Params { pick: 1, ..Default::default() }));
+                    }
                     for call in probes {
                         c.push(Call::CacheFault { file, kind, th: 0 });
                         if restart {
